@@ -118,6 +118,8 @@ type tagRun struct {
 	Unknown  bool
 	Pos      string
 	Result   *Term // value term of the successful return (first result)
+	Origin   *Term // the recorded call Result stands for (time.Unix(…)), if any
+	State    *pxState // the path's final state (origins of further leaves)
 	Env      Env
 	Ret      *ssa.Return
 }
@@ -250,6 +252,8 @@ func (w *World) pxDecodeTag(dec *ssa.Function, t int) tagRun {
 			run.Payload = pay
 			run.Pos = w.instrPos(ret)
 			run.Result = results[0]
+			run.Origin = st.originOf(results[0])
+			run.State = st
 			run.Env = st.env.clone()
 			run.Ret = ret
 		},
